@@ -56,12 +56,12 @@ def main(argv=None):
             t = st['tally']
             print('SELFTEST %s: %s' % (prop, ', '.join('%s=%d' % kv for kv in sorted(t.items()))))
         if args.no_evidence:
-            for f in res.findings:
-                print('VIOLATION property=%s replay=-' % prop)
-                print('  rule %s at %s in %s: %s' % (f.rule, f.where, f.func, f.message))
             from .report import load_known, norm_construct
             known, _ = load_known()
             new = [f for f in res.findings if norm_construct(f.key) not in known]
+            for f in new:
+                print('VIOLATION property=%s replay=-' % prop)
+                print('  rule %s at %s in %s: %s' % (f.rule, f.where, f.func, f.message))
             return 1 if new else 0
         return finish(res, tier, seed, t0, repo)
     except AnalysisError as e:
